@@ -396,6 +396,7 @@ def oracle(ctx, deep=False, cal=False, only=None):
 
     res = Result()
     t_start = time.time()
+    c_start = time.process_time()
     rng = ctx.rng
     old_threads = numba.get_num_threads()
     numba.set_num_threads(max(1, min(old_threads, int(os.environ.get("VERIF_ORACLE_THREADS", "1")))))
@@ -411,8 +412,8 @@ def oracle(ctx, deep=False, cal=False, only=None):
     counts = dict(inside=0, outside=0, near=0)
     try:
         for mi, (name, variant) in enumerate(plan):
-            if done >= 1 and time.time() - t_start > budget:
-                res.notes.append(f"time budget {budget:.0f}s reached after {done}/{len(plan)} meshes")
+            if done >= 1 and time.process_time() - c_start > budget:
+                res.notes.append(f"CPU-time budget {budget:.0f}s reached after {done}/{len(plan)} meshes")
                 break
             t_mesh = time.time()
             mesh = build_mesh(name, variant, rng)
@@ -537,6 +538,7 @@ def oracle(ctx, deep=False, cal=False, only=None):
     res.stats["points_outside"] = counts["outside"]
     res.stats["points_within_2h"] = counts["near"]
     res.stats["oracle_wall_s"] = round(time.time() - t_start, 1)
+    res.stats["oracle_cpu_s"] = round(time.process_time() - c_start, 1)
     return res
 
 
